@@ -25,6 +25,8 @@ func init() {
 				Witnesses: []string{"closed-statement", "portal-rebound"}},
 			{Pkg: "wire", Entry: "VerifH07c", What: "re-parse does not change a bound portal; re-bind picks up the new definition",
 				Quick: map[string]int{}, Witnesses: []string{"reparse-does-not-change-bound-portal", "rebind-picks-up-new-definition"}},
+			{Pkg: "wire", Entry: "VerifH07d", What: "re-binding a portal name replaces its result formats; Describe and Execute use the latest Bind's formats",
+				Quick: map[string]int{}, Witnesses: []string{"rebound-portal"}},
 			{Pkg: "wire", Entry: "VerifH07b", What: "statements/portals of one connection are invisible to the next connection on the same server",
 				Quick: map[string]int{}, Witnesses: []string{"isolated"}},
 		},
@@ -45,6 +47,8 @@ func init() {
 			{Pkg: "wire", Entry: "VerifH08b", What: "result formats: announced = used = rule(none/one/n)",
 				Quick: map[string]int{"COLS": 2}, Thorough: map[string]int{"COLS": 3},
 				Witnesses: []string{"one-code-applies-to-all", "positional-codes"}},
+			{Pkg: "wire", Entry: "VerifH07d", What: "result formats of the latest Bind of a portal name are the ones announced and used",
+				Quick: map[string]int{}, Witnesses: []string{"rebound-portal"}},
 			{Pkg: "wire", Entry: "VerifH08c", What: "ParameterDescription = declared OIDs", Quick: map[string]int{"PARAMS": 3},
 				Witnesses: []string{"two-declared-parameters"}},
 			{Pkg: "wire", Entry: "VerifH08d", What: "Parameter accessors and Scan", Quick: map[string]int{},
